@@ -297,8 +297,46 @@ def main14(tag, outdir):
         open(os.path.join(outdir, aid + ".txt"), "w").write(out)
         print(aid, len(out))
 
+# wave 17: changes that need a HISTORY (several state-changing instructions in a particular order) before they show
+HIST17 = [
+ ("J01", "the swap loop, tick crossings and the tick-array sequence (fixed and dynamic arrays)"),
+ ("J02", "increase / decrease liquidity: position, tick and pool liquidity bookkeeping"),
+ ("J03", "fee growth, fees owed to positions, collect_fees, protocol fees and collect_protocol_fees"),
+ ("J04", "rewards: initialisation, emissions, growth, amounts owed, collect_reward"),
+ ("J05", "adaptive-fee pools: the oracle's variables (reference, accumulator, timestamps) over a series of swaps and pauses"),
+ ("J06", "position lifecycle: open / close, bundles, lock, transfer-lock, reset_position_range, reposition_liquidity_v2"),
+ ("J07", "Token-2022 transfer-fee mints (swap_v2, liquidity v2, two_hop_swap_v2) incl. fee-schedule changes over epochs"),
+ ("J08", "administration: config, fee tiers and adaptive fee tiers, authorities, default rates, fee-rate setters, several pools of one config"),
+ ("J09", "the Rust core SDK quotes (rust-sdk/core: swap, increase / decrease liquidity, fees and rewards quotes) fed with the state the program leaves after a history"),
+ ("J10", "dynamic tick arrays: the variable-length encoding as ticks are initialised and de-initialised over time"),
+]
+
+def main17(tag, outdir):
+    os.makedirs(outdir, exist_ok=True)
+    root = os.path.dirname(os.path.dirname(os.path.abspath(__file__)))
+    brief = open(os.path.join(root, "notes/SEED_BRIEF.md")).read().split("\n---\n", 1)[1]
+    props = [json.loads(l) for l in open(os.path.join(root, "properties.jsonl"))]
+    plist = "\n".join(f"* {p['id']} — {p['title']}. {p['statement']}" for p in props)
+    for aid, area in HIST17:
+        d = f"/tmp/{tag}_{aid}"
+        text = ("This time you are not given one property but a SUBJECT and a CONSTRAINT ON WHEN THE BREAK SHOWS. The repository is expected to satisfy all of the "
+                "following properties (each must hold for every input, history and configuration):\n\n" + plist +
+                "\n\nYour subject:\n  - " + area +
+                "\n\nMake a change that stays invisible until a particular HISTORY has happened: at least five state-changing instructions on the same pool "
+                "(after the pool, its tick arrays and its positions exist), in a particular order, are needed before any property above is broken - for instance state "
+                "that only a certain sequence of swaps, liquidity changes, clock advances, collections or administrative calls can produce. Pick whichever property your "
+                "change breaks, and say which one in meta.json (\"property\": \"Cxx\"), and list the shortest history you found that shows it.")
+        out = (brief.replace("{dir}", d).replace("{property}", text).replace("{used}", "(about 270 earlier changes exist, nearly all of them visible after one or two instructions - a change that needs a LONG, SPECIFIC history is what is wanted here)")
+               .replace("{steer}", "Every history of four or fewer state-changing instructions on a freshly created and funded pool must behave bit for bit as before. Say in demo.md how you checked that, and why no shorter history shows the break.")
+               .replace("{id}", "Cxx"))
+        out = out.replace("Earlier changes written against this property are listed here", "Earlier changes")
+        open(os.path.join(outdir, aid + ".txt"), "w").write(out)
+        print(aid, len(out))
+
 def main():
     tag, outdir = sys.argv[1], sys.argv[2]
+    if tag.startswith("seed17"):
+        return main17(tag, outdir)
     if tag.startswith("seed14") or tag.startswith("seed15") or tag.startswith("seed16"):
         return main14(tag, outdir)
     if tag.startswith("seed13"):
